@@ -369,7 +369,9 @@ class VarianceMeanCount(object):
                     "can not get corrected variance from a sample "
                     "with one element"
                 )
-            var *= count/float(count - 1)
+            # not count/float(count-1): var may be a Decimal (from DSum),
+            # which can't be multiplied by a float
+            var = var * count / (count - 1)
 
         res = variance_mean_count(var, mean, count)
 
